@@ -24,6 +24,12 @@ instances, when restore_identity is set and an identity was recorded; a
 failed restore deletes the record.  C11.5 nothing that is not recorded is
 placed: the only placement calls reachable from load_model are in
 restore_placement, which ranges over the stored listing of that server.
+Added by the seeding rounds - C11.1 every listed server / app is loaded (no
+filter on the listing); C11.2 the verbatim branch calls Server.restore(app,
+expires) under presence <= placement with both stamps converted from
+milliseconds without truncation, the stamp locals being identified by what
+they are read from; C11.4 force_set_identity takes the recorded identity
+unconditionally.
 Does NOT decide fidelity for all reachable stored states.
 """
 
